@@ -722,6 +722,64 @@ func runC16(c *core.Ctx) {
 		c16Check(c, pool, specs[r.Intn(len(specs))], c16Doc{src: src})
 	}
 	c16ContextHistories(c, pool, specs)
+	c16Graphs(c, pool)
+}
+
+// c16Graphs: all reference graphs over three footnotes. The document body and every footnote body refer to each of the
+// (other) footnotes not at all, plainly, or from inside an image description (which renders no reference): 3^9 documents.
+// Which footnotes are rendered, with which numbers, follows from reachability through references that are themselves
+// rendered; the structural oracle demands that what is rendered is consistent (every item referenced, every back-link has its
+// reference, numbering 1..m, unreferenced definitions leave no trace).
+func c16Graphs(c *core.Ctx, pool *cfg.Pool) {
+	labels := []string{"a", "b", "c"}
+	ref := func(kind int, l string) string {
+		switch kind {
+		case 1:
+			return " r[^" + l + "]"
+		case 2:
+			return " ![img[^" + l + "] alt](/u)"
+		}
+		return ""
+	}
+	specs := []cfg.Spec{{Ext: cfg.ExtFootnote}, {Ext: cfg.ExtAll, XHTML: true}}
+	total := 19683
+	for g := 0; g < total; g++ {
+		if !c.Mine(g) {
+			continue
+		}
+		x := g
+		next := func() int { k := x % 3; x /= 3; return k }
+		var b strings.Builder
+		b.WriteString("body")
+		for _, l := range labels {
+			b.WriteString(ref(next(), l))
+		}
+		b.WriteString("\n\n")
+		for i, l := range labels {
+			b.WriteString("[^" + l + "]: note-" + l)
+			for j, m := range labels {
+				if i != j {
+					b.WriteString(ref(next(), m))
+				}
+			}
+			b.WriteString("\n\n")
+		}
+		src := []byte(b.String())
+		sp := specs[g%len(specs)]
+		md := pool.Get(sp)
+		c.Begin(sp.Name(), src)
+		fs, items, _, status := c16Eval(md, sp, src, nil)
+		c.End()
+		c.Eval()
+		c.Count("reference_graph_documents", 1)
+		if status != "ok" {
+			continue
+		}
+		c.Count("items_inspected", int64(items))
+		for _, f := range fs {
+			c.Violation(&core.Violation{Class: f.class, Locus: f.locus + ":reference-graph", Config: sp.Name(), Input: src, Detail: f.detail})
+		}
+	}
 }
 
 // c16ContextHistories: one parser.Context handed to many Parse calls (parser.WithContext), as a caller does that keeps its
